@@ -52,6 +52,15 @@ def gen_request_spec(rng):
         o["metadata"] = True
     if o.get("add-iam-methods"):
         o.pop("add-iam-methods")
+    if rng.random() < 0.3:
+        # a handwritten sample config (the `samples=` plugin option) for one plain unary RPC
+        cands = [(fs, s, m) for fs, s, m in grammar.all_methods(spec)
+                 if m["name"].startswith("Get") and not m.get("client_streaming") and not m.get("server_streaming")]
+        if cands:
+            fs, s, m = rng.choice(cands)
+            spec["sample_config"] = ("---\ntype: com.google.api.codegen.samplegen.v1p2.SampleConfigProto\nschema_version: 1.2.0\nsamples:\n"
+                                     f"- id: fetch_one\n  region_tag: handwritten_fetch_one\n  description: Fetch one\n"
+                                     f"  service: {fs['package']}.{s['name']}\n  rpc: {m['name']}\n")
     # many retryable codes in one entry (set-typed in the generator)
     sc = spec.get("service_config")
     if sc and sc["methodConfig"]:
